@@ -17,7 +17,7 @@ HARNESS = os.path.join(VERIF, "harness")
 BUILD = os.path.join(VERIF, ".build")
 OUT = os.path.join(VERIF, "out")
 EVID = os.path.join(VERIF, "evidence")
-REPO = "/repo"
+REPO = os.environ.get("VERIF_REPO", "/repo")
 
 GOENV = dict(os.environ, GOFLAGS="-mod=mod", GOPROXY="off", GOSUMDB="off", GOTOOLCHAIN="local")
 
@@ -36,10 +36,25 @@ def sh(cmd, cwd=None, env=None, timeout=None, inp=None):
 
 # ---------------------------------------------------------------- builds
 
+def gen_coqproject():
+    """_CoqProject lists every .v file under coq/ (generated; dependency order comes from coqdep)."""
+    vs = []
+    for d, _, fs in os.walk(COQ):
+        for f in fs:
+            if f.endswith(".v") and not f.startswith("."):
+                vs.append(os.path.relpath(os.path.join(d, f), COQ))
+    body = "-Q . BV\n" + "\n".join(sorted(vs)) + "\n"
+    p = os.path.join(COQ, "_CoqProject")
+    old = open(p).read() if os.path.exists(p) else ""
+    if old != body or not os.path.exists(os.path.join(COQ, "Makefile")):
+        with open(p, "w") as f:
+            f.write(body)
+        sh(["coq_makefile", "-f", "_CoqProject", "-o", "Makefile"], cwd=COQ, timeout=120)
+
+
 def coq_build():
     """Full .vo build of the development (no -vos). Returns (ok, log, failing_file)."""
-    if not os.path.exists(os.path.join(COQ, "Makefile")):
-        sh(["coq_makefile", "-f", "_CoqProject", "-o", "Makefile"], cwd=COQ, timeout=120)
+    gen_coqproject()
     try:
         rc, out = sh(["make", "-j16", "-k"], cwd=COQ, timeout=3000)
     except subprocess.TimeoutExpired:
@@ -56,6 +71,11 @@ def harness_build():
     except OSError:
         pass
     binp = os.path.join(BUILD, "harness")
+    gm = os.path.join(HARNESS, "go.mod")
+    txt = open(gm).read()
+    new = re.sub(r"replace github.com/streamingfast/bstream => \S+", "replace github.com/streamingfast/bstream => " + REPO, txt)
+    if new != txt:
+        open(gm, "w").write(new)
     try:
         rc, out = sh(["go", "build", "-tags", "verif", "-o", binp, "."], cwd=HARNESS, env=GOENV, timeout=1200)
     except subprocess.TimeoutExpired:
